@@ -19,9 +19,9 @@ import (
 func init() {
 	kernel.Register(&kernel.World{
 		Property: "C19", Bubble: true, Run: runC19, RunsPerProc: 80, RunTimeout: 300 * time.Second,
-		Rule: "one run = 2-3 real brokers on the simulated mesh; the tape interleaves Swarm.SendTo calls (messages of tape-chosen size, ids created by message.New at that simulated instant) to 1-2 peers with clock advances of 1 ns .. 35 s (5 ms flush of the peer queue, emitter's 5 s update that keeps a peer active, inactivity past 30 s after a partition), link loss and heal; every payload handed to GossipUnicast is captured, decoded with DecodeFrame and concatenated per destination: it must equal, in order and once each, the messages for which SendTo returned nil (id, channel, payload, ttl unchanged). Along the way every created id must give back its ssid and the simulated second, ids created later for a channel must sort before earlier ones, no two ids are equal, and Frame.Split at tape-chosen bounds must keep head ++ tail = frame with the head below the bound. non-trivial = >= 5 messages reached the transport; distinct = distinct canonical logs",
-		Real:  []string{"cluster.Swarm.SendTo / findPeer / update", "cluster.Peer (Send, swap, processSendQueue)", "message.NewID / ID accessors", "message.Frame (Encode, DecodeFrame, Split)"},
-		Stub:  []string{"weaveworks/mesh (simmesh: GossipUnicast capture)", "clock (synctest)"},
+		Rule:        "one run = 2-3 real brokers on the simulated mesh; the tape interleaves Swarm.SendTo calls (messages of tape-chosen size, ids created by message.New at that simulated instant) to 1-2 peers with clock advances of 1 ns .. 35 s (5 ms flush of the peer queue, emitter's 5 s update that keeps a peer active, inactivity past 30 s after a partition), link loss and heal; every payload handed to GossipUnicast is captured, decoded with DecodeFrame and concatenated per destination: it must equal, in order and once each, the messages for which SendTo returned nil (id, channel, payload, ttl unchanged). Along the way every created id must give back its ssid and the simulated second, ids created later for a channel must sort before earlier ones, no two ids are equal, and Frame.Split at tape-chosen bounds must keep head ++ tail = frame with the head below the bound. non-trivial = >= 5 messages reached the transport; distinct = distinct canonical logs",
+		Real:        []string{"cluster.Swarm.SendTo / findPeer / update", "cluster.Peer (Send, swap, processSendQueue)", "message.NewID / ID accessors", "message.Frame (Encode, DecodeFrame, Split)"},
+		Stub:        []string{"weaveworks/mesh (simmesh: GossipUnicast capture)", "clock (synctest)"},
 		Assumptions: []string{"senders are interleaved with the flush at the granularity of whole SendTo calls (one simulator goroutine); truly parallel id creation and parallel senders are out of reach (DESIGN.md 9)"},
 	})
 }
@@ -98,33 +98,44 @@ func runC19(c *kernel.Ctx) {
 		switch k := t.Choose(20); {
 		case k < 11: // hand a message to a peer
 			dst := cl.Name(1 + t.Choose(n-1))
-			si := t.Choose(len(ssids))
-			seq++
-			size := []int{0, 1, 10, 200, 4000, 60000}[t.Choose(6)]
-			payload := bytes.Repeat([]byte{byte('a' + seq%26)}, size)
-			payload = append(payload, []byte(fmt.Sprintf("#%d", seq))...)
-			m := message.New(ssids[si], []byte(fmt.Sprintf("ch%d/", si)), payload)
-			m.TTL = uint32(t.Choose(3)) * 1000
-			// --- id properties against the simulated clock
-			now := time.Now().Unix()
-			if m.ID.Time() != now {
-				c.Failf("id-fields", "time", "id created at simulated second %d reports %d", now, m.ID.Time())
+			// sometimes a burst: more messages for one peer between two flushes than any batch size in the code
+			burst := 1
+			if t.Chance(1, 14) {
+				burst = t.Range(130, 260)
+				c.Probe("burst-over-128-messages-for-one-peer")
 			}
-			if fmt.Sprint(m.ID.Ssid()) != fmt.Sprint(ssids[si]) || m.ID.Contract() != ssids[si][0] {
-				c.Failf("id-fields", "ssid", "id gives back ssid %v contract %d, created with %v", m.ID.Ssid(), m.ID.Contract(), ssids[si])
-			}
-			if prev, ok := lastID[si]; ok && bytes.Compare(m.ID, prev) >= 0 {
-				c.Failf("id-order", "later-sorts-first", "an id created later for the same channel does not sort before the earlier one (% x vs % x)", m.ID, prev)
-			}
-			if seen[string(m.ID)] {
-				c.Failf("id-unique", "dup", "two ids are equal: % x", m.ID)
-			}
-			seen[string(m.ID)] = true
-			lastID[si] = append([]byte(nil), m.ID...)
-			err := sw.SendTo(dst, m)
-			c.Logf("sendto %s #%d size=%d -> err=%v", dst, seq, len(payload), err != nil)
-			if err == nil {
-				want[dst] = append(want[dst], rec{append([]byte(nil), m.ID...), append([]byte(nil), m.Channel...), append([]byte(nil), payload...), m.TTL, false})
+			for bi := 0; bi < burst; bi++ {
+				si := t.Choose(len(ssids))
+				seq++
+				size := []int{0, 1, 10, 200, 4000, 60000}[t.Choose(6)]
+				if burst > 1 {
+					size = size % 11
+				}
+				payload := bytes.Repeat([]byte{byte('a' + seq%26)}, size)
+				payload = append(payload, []byte(fmt.Sprintf("#%d", seq))...)
+				m := message.New(ssids[si], []byte(fmt.Sprintf("ch%d/", si)), payload)
+				m.TTL = uint32(t.Choose(3)) * 1000
+				// --- id properties against the simulated clock
+				now := time.Now().Unix()
+				if m.ID.Time() != now {
+					c.Failf("id-fields", "time", "id created at simulated second %d reports %d", now, m.ID.Time())
+				}
+				if fmt.Sprint(m.ID.Ssid()) != fmt.Sprint(ssids[si]) || m.ID.Contract() != ssids[si][0] {
+					c.Failf("id-fields", "ssid", "id gives back ssid %v contract %d, created with %v", m.ID.Ssid(), m.ID.Contract(), ssids[si])
+				}
+				if prev, ok := lastID[si]; ok && bytes.Compare(m.ID, prev) >= 0 {
+					c.Failf("id-order", "later-sorts-first", "an id created later for the same channel does not sort before the earlier one (% x vs % x)", m.ID, prev)
+				}
+				if seen[string(m.ID)] {
+					c.Failf("id-unique", "dup", "two ids are equal: % x", m.ID)
+				}
+				seen[string(m.ID)] = true
+				lastID[si] = append([]byte(nil), m.ID...)
+				err := sw.SendTo(dst, m)
+				c.Logf("sendto %s #%d size=%d -> err=%v", dst, seq, len(payload), err != nil)
+				if err == nil {
+					want[dst] = append(want[dst], rec{append([]byte(nil), m.ID...), append([]byte(nil), m.Channel...), append([]byte(nil), payload...), m.TTL, false})
+				}
 			}
 		case k < 16:
 			d := []time.Duration{time.Nanosecond, time.Millisecond, 4 * time.Millisecond, 5 * time.Millisecond, 7 * time.Millisecond, time.Second, 5 * time.Second, 35 * time.Second}[t.Choose(8)]
